@@ -6,6 +6,7 @@
 From Coq Require Import List String Bool.
 From KV Require Import LockDiscipline LockDisciplineProofs.
 From KV.gen Require Import Locks.
+From KV.gen Require LockLeaks.
 Import ListNotations.
 
 Lemma C07_fields_protected : protectedb gen_accesses = true.
@@ -39,3 +40,22 @@ Proof.
   intros tr pend F. apply (order_no_deadlock gen_order); auto.
   apply acyclicb_sound. exact C07_lock_order_acyclic.
 Qed.
+
+(* Explicit Lock()/Unlock() pairs (gen/LockLeaks.v, gofacts/lockleaks.go): no `return`, and no
+   `continue`/`break` out of the loop the lock was taken in, leaves a mutex locked — except the
+   reviewed entry: BeginTransaction returns with the isolation lock held ON PURPOSE (the
+   transaction owns it until Commit/Rollback; its release is C17's subject). An unlock missed
+   on an error path (a `continue` in a worker loop, an early `return`) adds a row and breaks
+   this lemma. *)
+Definition known_lock_holders : list (string * string * string * string) :=
+  [("pkg/transaction", "Manager.BeginTransaction", "m.txLock", "return")]%string.
+
+Definition row_eqb (a b : string * string * string * string) : bool :=
+  match a, b with
+  | (a1, a2, a3, a4), (b1, b2, b3, b4) =>
+      (String.eqb a1 b1 && String.eqb a2 b2 && String.eqb a3 b3 && String.eqb a4 b4)%bool
+  end.
+
+Lemma C07_no_lock_left_on_exit :
+  forallb (fun r => existsb (row_eqb r) known_lock_holders) LockLeaks.lock_leaks = true.
+Proof. vm_compute. reflexivity. Qed.
